@@ -1,5 +1,6 @@
 """C12 -- media round-trips unchanged and request media is parsed at most once
 (DESIGN section 4, C12)."""
+import copy
 import json
 
 import falcon
@@ -14,7 +15,7 @@ PROPERTY = 'C12'
 LEVEL = 'exploration'
 RUNS = {'quick': 3500, 'thorough': 150000}
 SWEEP = True
-SWEEP_CAP = {'quick': 16, 'thorough': 40}
+SWEEP_CAP = {'quick': 20, 'thorough': 40}
 BATCH = 150
 RULE = ('one workload = one generated JSON document (nested containers, all scalar kinds, unicode incl. astral and '
         'escape-worthy characters, big ints) or URL-encoded form mapping x content type (plain, with parameters, '
@@ -30,7 +31,7 @@ COMPONENTS = {
              'Response.media rendering', 'request body streams'],
     'stub': ['WSGI/ASGI servers and clients', 'event loop scheduler', 'responders executing the access history'],
 }
-EXPECTED_PROBES = ('json_doc', 'form_doc', 'plus_json', 'empty_body', 'truncated', 'corrupted', 'default_used',
+EXPECTED_PROBES = ('io_error', 'json_doc', 'form_doc', 'plus_json', 'empty_body', 'truncated', 'corrupted', 'default_used',
                    'repeat_call', 'asgi_multi_chunk', 'error_cached', 'wsgi', 'asgi')
 ASSUMPTIONS = (
     'documents contain no lone surrogates, NaN/Infinity or a top-level null (resp.media = None means "no media")',
@@ -124,11 +125,27 @@ def make_app(asgi, kind, ctype, doc, hist, out, counter, propagate, prerender=Fa
         class Doc(object):
             async def on_get(self, req, resp):
                 resp.content_type = ctype
-                if prerender:
+                if prerender == 1:
                     # render an earlier value first: the rendering cache must not go stale
                     resp.media = {'earlier': 'value'}
                     await resp.render_body()
-                resp.media = doc
+                    resp.media = doc
+                elif prerender == 2 and isinstance(doc, (dict, list)):
+                    # render, change the document in place, assign the same object again
+                    m = copy.copy(doc)
+                    if isinstance(m, dict):
+                        m['__tmp__'] = 1
+                    else:
+                        m.append('__tmp__')
+                    resp.media = m
+                    await resp.render_body()
+                    if isinstance(m, dict):
+                        del m['__tmp__']
+                    else:
+                        m.pop()
+                    resp.media = resp.media
+                else:
+                    resp.media = doc
 
         class Echo(object):
             async def on_post(self, req, resp):
@@ -158,10 +175,25 @@ def make_app(asgi, kind, ctype, doc, hist, out, counter, propagate, prerender=Fa
         class Doc(object):
             def on_get(self, req, resp):
                 resp.content_type = ctype
-                if prerender:
+                if prerender == 1:
                     resp.media = {'earlier': 'value'}
                     resp.render_body()
-                resp.media = doc
+                    resp.media = doc
+                elif prerender == 2 and isinstance(doc, (dict, list)):
+                    m = copy.copy(doc)
+                    if isinstance(m, dict):
+                        m['__tmp__'] = 1
+                    else:
+                        m.append('__tmp__')
+                    resp.media = m
+                    resp.render_body()
+                    if isinstance(m, dict):
+                        del m['__tmp__']
+                    else:
+                        m.pop()
+                    resp.media = resp.media
+                else:
+                    resp.media = doc
 
         class Echo(object):
             def on_post(self, req, resp):
@@ -192,13 +224,15 @@ def make_app(asgi, kind, ctype, doc, hist, out, counter, propagate, prerender=Fa
     return app
 
 
-def asgi_request(ctx, app, method, path, headers, events, holder, recv_suspends, predeliver):
+def asgi_request(ctx, app, method, path, headers, events, holder, recv_suspends, predeliver,
+                 fail_recv_at=()):
     ch = ctx.ch
     env = _Env()
     loop = SimLoop(ch, env, max_steps=4000)
     sim = _Sim(loop, ch, ctx)
     scope = http_scope(method=method, path=path, headers=headers)
     conn = Conn(sim, 'http', scope, events, HttpMonitor(), recv_suspends=recv_suspends, lost_mode='drop')
+    conn.fail_recv_at = frozenset(fail_recv_at)
     env.conn = conn
     holder['conn'] = conn
     if predeliver:
@@ -253,7 +287,7 @@ def run(ctx):
     predeliver = ch.draw(3, 'predeliver') == 0
     n_cuts = ch.draw(4, 'n_cuts')
     cut_draws = [ch.draw(1000, 'cut') for _ in range(n_cuts)]
-    prerender = ch.draw(4, 'prerender') == 3
+    prerender = [0, 0, 1, 2][ch.draw(4, 'prerender')]
     short_reads = False     # a single read() is what the handlers do; buffered wsgi.input returns it all
 
     # ---- step 1: serialize through the real response path ---------------------------
@@ -284,6 +318,15 @@ def run(ctx):
     if ctx.opportunity('empty_body'):
         fault = ('empty',)
     n = len(body1)
+    if n and kind == 'json':
+        if ctx.opportunity('wrong_encoding_utf16'):
+            fault = ('utf16',)
+        if ctx.opportunity('wrong_encoding_bom'):
+            fault = ('bom',)
+        if ctx.opportunity('wrong_encoding_surrogate'):
+            fault = ('surrogate',)
+    if n >= 2 and ctx.opportunity('io_error_while_reading'):
+        fault = ('ioerror',)
     positions = sorted(set([0, 1, n // 3, n // 2, (2 * n) // 3, n - 1]) & set(range(0, max(n, 1))))
     for p in positions:
         if n and ctx.opportunity('truncate'):
@@ -295,6 +338,7 @@ def run(ctx):
             fault = ('delete', p)
         if n and ctx.opportunity('corrupt_structural_byte'):
             fault = ('struct', p)
+
     body2 = body1
     declared = len(body1)
     if fault:
@@ -304,6 +348,21 @@ def run(ctx):
         elif fault[0] == 'truncate':
             body2 = body1[:fault[1]]      # declared length stays: fewer bytes arrive
             ctx.probe('truncated')
+        elif fault[0] == 'utf16':
+            body2 = body1.decode('utf-8').encode('utf-16')
+            declared = len(body2)
+            ctx.probe('corrupted')
+        elif fault[0] == 'bom':
+            body2 = b'\xef\xbb\xbf' + body1
+            declared = len(body2)
+            ctx.probe('corrupted')
+        elif fault[0] == 'surrogate':
+            # a UTF-8-encoded lone surrogate inside a JSON string: not valid UTF-8
+            body2 = b'["' + b'\xed\xa0\x80' + b'", ' + body1 + b']'
+            declared = len(body2)
+            ctx.probe('corrupted')
+        elif fault[0] == 'ioerror':
+            ctx.probe('io_error')
         else:
             p = fault[1]
             if fault[0] == 'utf8':
@@ -330,6 +389,8 @@ def run(ctx):
             return c.recv_calls if c else 0
         app2 = make_app(True, kind, ctype, doc, hist, out, counter, propagate)
         cuts = sorted(set(c % (len(body2) + 1) for c in cut_draws))
+        if fault is not None and fault[0] == 'ioerror':
+            cuts = sorted(set(cuts + [len(body2) // 2])) or [1]
         parts = [body2[a:b] for a, b in zip([0] + cuts, cuts + [len(body2)])]
         if len([p for p in parts if p]) >= 2:
             ctx.probe('asgi_multi_chunk')
@@ -340,7 +401,7 @@ def run(ctx):
             events.append({'type': 'http.disconnect'})
         hdrs = [('Content-Type', ctype), ('Content-Length', str(declared))]
         conn, fin, exc, sig = asgi_request(ctx, app2, 'POST', '/echo', hdrs, events, holder, recv_suspends,
-                                           predeliver)
+                                           predeliver, fail_recv_at=(1,) if fault == ('ioerror',) else ())
         status2 = conn.monitor.status
         ctx.sched_key = 'A' + sig
         if not fin:
@@ -350,6 +411,8 @@ def run(ctx):
             ctx.violate(oid, msg)
     else:
         inp = SimInput(ctx, body2, b'', short_reads=short_reads, limit=declared)
+        if fault == ('ioerror',):
+            inp.raise_at_call = 0
         if short_reads:
             ch.enable_fault('wsgi_short_read', 1, 2)
 
@@ -378,6 +441,28 @@ def run(ctx):
     # ---- what should the first parse give? ----------------------------------------------
     empty = body2 == b''
     faulty = fault is not None and fault[0] != 'empty'
+    if fault == ('ioerror',):
+        # the server failed while the body was being read: whatever the first access raised must be
+        # re-raised by every later access, without touching the stream again
+        err0 = None
+        for i, r in enumerate(out):
+            if r['ok']:
+                ctx.violate('media.cached_error', 'media access #%d returned %r although reading the body '
+                            'failed with an I/O error' % (i, r['value']), what='io_error', stack=stack)
+                return
+            if err0 is None:
+                err0 = r['exc']
+                continue
+            if r['exc'] is not err0:
+                ctx.violate('media.cached_error', 'after an I/O error while reading the body, access #%d raised '
+                            '%s instead of re-raising the original %s' % (i, r['cls'], type(err0).__name__),
+                            what='io_error', stack=stack)
+                return
+            if r['stream_delta'] != 0:
+                ctx.violate('media.parsed_once', 'access #%d touched the request stream again after the I/O '
+                            'error' % i, what='io_error', stack=stack)
+                return
+        return
     if kind == 'json':
         if empty:
             first = ('notfound',)
